@@ -224,12 +224,6 @@ func runFragRecv(c *FragRecvCase) *sim.Outcome {
 				return o
 			}
 			next++
-			if model.K == 0 { // completed
-				if completed > 0 {
-					o.Class("completion")
-				}
-				next = len(cur)
-			}
 		case "restart":
 			newMsg(ev.A%3 == 0)
 			f := ref.Fragment{V3: v3, K: 1, N: len(cur), Payload: cur[0]}
@@ -251,7 +245,7 @@ func runFragRecv(c *FragRecvCase) *sim.Outcome {
 			if !expect(c2, f, "a piece with a different total") {
 				return o
 			}
-			next = len(cur)
+			// the remaining pieces keep arriving: nothing may complete from them
 			oddMid = oddMid || midStream
 		case "dup":
 			if next == 0 || next > len(cur) {
@@ -262,9 +256,7 @@ func runFragRecv(c *FragRecvCase) *sim.Outcome {
 			if !expect(c2, f, "a repeated piece") {
 				return o
 			}
-			if f.K != 1 {
-				next = len(cur) // forgotten
-			}
+			// (after a repeated piece other than the first the stream is forgotten; the remaining pieces keep arriving)
 			oddMid = oddMid || midStream
 			if !midStream && completed > 0 {
 				completedThenMore = true
@@ -278,7 +270,7 @@ func runFragRecv(c *FragRecvCase) *sim.Outcome {
 			if !expect(c2, f, "a piece out of order") {
 				return o
 			}
-			next = len(cur)
+			next += 2
 			oddMid = oddMid || midStream
 		case "zero", "over":
 			k, n := 0, 3
